@@ -201,7 +201,8 @@ func vfGenDetCfg(t *rapid.T, dynamic bool, big bool) vfDetCfg {
 	}
 	c.Edge = rapid.IntRange(0, maxEdge).Draw(t, "edge")
 	c.T = rapid.SampledFrom([]uint16{0, 1, 1000, 2900, 28000, 65000}).Draw(t, "T")
-	c.D = rapid.SampledFrom([]uint16{0, 1, 20, 50, 200, 5000}).Draw(t, "D")
+	// the top of the range (where no difference can exceed the threshold any more) in one case in 10
+	c.D = rapid.SampledFrom([]uint16{0, 1, 20, 50, 200, 5000, 0, 1, 20, 50, 200, 5000, 0, 1, 20, 50, 200, 5000, 65534, 65535}).Draw(t, "D")
 	interior := (c.W - 2*c.Edge) * (c.H - 2*c.Edge)
 	c.Count = rapid.OneOf(rapid.SampledFrom([]int{1, 1, 2, 3, interior}), rapid.IntRange(1, interior)).Draw(t, "count")
 	if c.Count > interior {
